@@ -126,11 +126,11 @@ Definition scalar_kinds : list kind := [KInt; KFloat; KBool; KVoid; KString].
 (* Each constructor is one witness class of harness/py/checks/c08.findings.md.  `open` (generated on every
    run into gen/Gen_Dispositions.v) lists the classes the implementation exhibits NOW; the theorems of
    Props.v hold for every cell outside the footprints of the open classes, and every open class is shown to
-   be a real refutation inside its footprint.  With `open = []` the theorems are the full clauses. *)
+   be a real refutation inside its footprint.  With `open = []` the theorems are the full clauses.
+   Deviations repaired in /repo have NO constructor here (absent .- x = -x and "" .* x = -x were repaired by fix: 481d57d86):
+   their cells can no longer be excluded, so a regression breaks the theorems. *)
 Inductive finding :=
 | F_absent_left_zero (op : string)     (* absent op x = 0 for op in / // % ** *)
-| F_dotminus_absent_left               (* absent .- x = -x *)
-| F_dottimes_empty_left                (* "" .* x = -x *)
 | F_xor_collection_null                (* [..] ^ null = absent but null ^ [..] = error *)
 | F_max_empty_number                   (* max("", number) = "" *)
 | F_max_error_null                     (* max(error, null) = null *)
@@ -140,8 +140,6 @@ Definition cellkey := (string * kind * kind)%type.
 Definition footprint (f : finding) : list cellkey :=
   match f with
   | F_absent_left_zero op => [(op, KAbsent, KInt); (op, KAbsent, KFloat)]
-  | F_dotminus_absent_left => [(".-", KAbsent, KInt); (".-", KAbsent, KFloat)]
-  | F_dottimes_empty_left => [(".*", KVoid, KInt); (".*", KVoid, KFloat)]
   | F_xor_collection_null => [("^", KArray, KNull); ("^", KMap, KNull); ("^", KNull, KArray); ("^", KNull, KMap)]
   | F_max_empty_number =>
       flat_map (fun op => [(op, KVoid, KInt); (op, KVoid, KFloat); (op, KInt, KVoid); (op, KFloat, KVoid)]) ["max"; "max_binary"]
@@ -344,8 +342,6 @@ Definition refuted (T : bintable) (f : finding) : bool :=
   match f with
   | F_absent_left_zero op =>
       has2 T op KAbsent KInt CInt0 && has2 T op KAbsent KFloat CFloat0 && negb (has2 T op KAbsent KInt (CArg 2))
-  | F_dotminus_absent_left => has2 T ".-" KAbsent KInt (CNegArg 2) && negb (has2 T ".-" KAbsent KInt (CArg 2))
-  | F_dottimes_empty_left => has2 T ".*" KVoid KInt (CNegArg 2) && negb (has2 T ".*" KVoid KInt (CArg 2))
   | F_xor_collection_null =>
       negb (same_result_kinds (lookup2 T "^" KArray KNull) (lookup2 T "^" KNull KArray))
       || negb (same_result_kinds (lookup2 T "^" KMap KNull) (lookup2 T "^" KNull KMap))
